@@ -202,7 +202,8 @@ def judgeEvent (cfg : NCfg) (ev : Nat) (m0 : M) : M :=
       | some e => scopeKind e.2
       | none => ""))
   let m := m.flag (p3Order offers) "P3:order"
-  let m := m.flag (p3Complete cfg ev m.pre offers m.exited) "P3:not-offered"
+  let m := m.flag (p3Complete cfg ev m.pre offers m.exited)
+    (if offers.any (·.executed) then "P3:not-offered:after-execution" else "P3:not-offered:nothing-executed")
   let m := offers.foldl (fun m o => m.flag (p4Offer cfg o) ("P4:" ++ scopeKind o)) m
   m.bad.foldl (fun acc w => acc.flag false (w ++ g)) m0
 
